@@ -138,6 +138,28 @@ def run(pid, tier, seed):
                     chk.fail("no-error", dict(ic.case_json(k, r[1]), error=repr(e)))
         chk.notes.append("intensified search tried %d evaluations in %.0fs" % (tried, time.time() - t0))
 
+    # a container walk that fails (RecursionError on a list nested deeper than the interpreter's limit): either nothing is
+    # inferred at all (the error propagates; the tracer logs nothing for that call) or what is inferred is tight - never a
+    # bare `List[Any]` for a list that was not empty
+    deep = [1]
+    for _ in range(20000):
+        deep = [deep]
+    chk.evaluations += 1
+    try:
+        t = eng.get_type(deep, 0)
+    except RecursionError:
+        chk.count("deep.refused")
+    except BaseException as e:
+        chk.fail("deep-nesting", {"error": repr(e)[:200]})
+    else:
+        import typing
+        v, depth = deep, 0
+        while typing.get_origin(t) is list and type(v) is list and v:
+            (t,), v, depth = t.__args__, v[0], depth + 1
+        if t is typing.Any:
+            chk.fail("any-only-for-empty", {"detail": "a list nested 20000 deep, none of them empty, was typed List[...List[Any]]: "
+                                                      "Any %d levels down where no empty container was observed" % depth})
+        chk.count("deep.typed")
     rc = chk.finish(proof, search)
     eng.close()
     return rc
